@@ -204,6 +204,42 @@ func (p *ParametersLiteral) UnmarshalBinary(data []byte) (err error) {
 	return json.Unmarshal(data, p)
 }
 
+// UnmarshalJSON reads a JSON representation on the target ParametersLiteral struct.
+// The fields Xs and Xe are interfaces and cannot be decoded by the [encoding/json] package
+// directly: they are decoded with [ring.ParametersFromMap], all other fields as usual.
+func (p *ParametersLiteral) UnmarshalJSON(data []byte) (err error) {
+
+	// alias has the fields of ParametersLiteral but not its methods
+	type alias ParametersLiteral
+
+	// Xs and Xe shadow the fields of the same name of the embedded alias
+	aux := struct {
+		Xs map[string]interface{}
+		Xe map[string]interface{}
+		*alias
+	}{alias: (*alias)(p)}
+
+	if err = json.Unmarshal(data, &aux); err != nil {
+		return
+	}
+
+	p.Xs, p.Xe = nil, nil
+
+	if aux.Xs != nil {
+		if p.Xs, err = ring.ParametersFromMap(aux.Xs); err != nil {
+			return
+		}
+	}
+
+	if aux.Xe != nil {
+		if p.Xe, err = ring.ParametersFromMap(aux.Xe); err != nil {
+			return
+		}
+	}
+
+	return
+}
+
 // GetLogN returns the LogN field of the target [ParametersLiteral].
 // The default value DefaultLogN is returned if the field is nil.
 func (p ParametersLiteral) GetLogN() (LogN int) {
